@@ -68,6 +68,8 @@ M = [
   "          m_interface.destroy (m_data_ptr);\n          m_interface.deallocate (m_data_ptr, sizeof (value_ty));", "          m_interface.destroy (m_data_ptr);"),
  ("M31-cx-insert-alias", ["C08"], "constant-evaluated insert(pos,n,v[i]) fills from the aliased argument instead of the temporary", HDR,
   "              ptr inserted_end = shift_into_uninitialized (pos, count);\n              std::fill (pos, inserted_end, tmp.get ());", "              ptr inserted_end = shift_into_uninitialized (pos, count);\n              std::fill (pos, inserted_end, val);"),
+ ("M32-inline-align-capped", ["C02"], "inline buffer alignment capped at alignof(max_align_t): over-aligned elements sit misaligned in the object", HDR,
+  "      union alignas (alignof (value_ty)) {", "      union alignas (alignof (value_ty) < alignof (std::max_align_t) ? alignof (value_ty) : alignof (std::max_align_t)) {"),
  # negative controls: behaviour-preserving edits, every check must stay silent
  ("N01-growth-1.5", [], "NEGATIVE CONTROL: growth factor 1.5 (allowed by C14)", HDR,
   "        const size_ty new_capacity = 2 * current_capacity;", "        const size_ty new_capacity = current_capacity + (current_capacity / 2);"),
